@@ -42,7 +42,10 @@ MANIFEST_NOTE = ('Trusted: reference channel formula, math.log. Relative '
 RULE = ('case = one error_probability evaluation or one Metropolis step; '
         'distinct by (code, noise, rate, error); non-trivial = error != 0')
 ASSUMPTIONS = ['supported size family = pv/families.py']
-REQUIRED_COUNTERS = ['probabilities_compared', 'normalisation_sums',
+REQUIRED_COUNTERS = ['chain_end_states_compared',
+                     'splitting_runs_with_rates_not_descending',
+                     'log_forms_on_large_dense_errors',
+                     'probabilities_compared', 'normalisation_sums',
                      'metropolis_steps_observed',
                      'metropolis_moves_on_occupied_qubit', 'log_form_compared',
                      'errors_with_Y']
@@ -176,6 +179,9 @@ def run_large(task, out):
     for dn, kw in fam.deformations(cls)[:3]:
         for direction in task['dirs']:
             p = float(rng.choice([0.01, 0.1, 0.3, 0.5, 0.9]))
+            if task.get('dense'):
+                p = float(rng.choice([0.01, 0.05, 0.1]))
+                out.count('log_forms_on_large_dense_errors')
             em = PauliErrorModel(*direction, deformation_name=dn,
                                  deformation_kwargs=dict(kw) if kw else None)
             tab = ref_channel(code, cls, direction, p, dn, kw)
@@ -260,7 +266,12 @@ def run_metropolis(task, out):
             code = fam.build(cls, size)
             n = code.n
             em = PauliErrorModel(*direction, deformation_name=dn)
-            rates = [0.2, 0.1]
+            # the rates in the order a caller may list them (the batch layer
+            # and input files list them ascending)
+            rates = [[0.2, 0.1], [0.1, 0.2], [0.15, 0.3, 0.05]][
+                (len(cls) + len(str(dn)) + int(direction[0] * 10)) % 3]
+            if rates != sorted(rates, reverse=True):
+                out.count('splitting_runs_with_rates_not_descending')
             decs = [MatchingDecoder(code, em, r) for r in rates]
             log = []
             steps_rec = []
@@ -297,6 +308,32 @@ def run_metropolis(task, out):
                 sp.np = real_np
                 sp.SplittingSimulation.get_next_error = real_gne
             steps = 0
+            # every chain is stepped at, and its log p recorded for, the
+            # rate it is reported under
+            reported = [float(x) for x in sim.error_rates]
+            for k, (prev, rate, nxt, lp, calls) in enumerate(steps_rec):
+                if abs(rate - reported[k % len(reported)]) > 1e-15:
+                    out.violation(
+                        f'{mech}/chain-stepped-at-another-rate',
+                        f'chain {k % len(reported)} is reported under error '
+                        f'rate {reported[k % len(reported)]} but was stepped '
+                        f'at {rate}', dict(desc, rates_given=rates))
+                    break
+            res = sim._results
+            for i_p, rate in enumerate(reported):
+                cur = gf2.pack(np.asarray(sim.current_error[i_p]).astype(int))
+                tab = ref_channel(code, cls, direction, rate, dn, {})
+                want = ref_logprob(tab, cur, n)
+                got = float(res['log_p_errors'][i_p][-1])
+                out.count('chain_end_states_compared')
+                if not math.isinf(want) and \
+                        abs(got - want) > 1e-9 * max(1.0, abs(want)):
+                    out.violation(
+                        f'{mech}/recorded-log-probability/at-reported-rate',
+                        f'chain {i_p} (reported under p={rate}): last '
+                        f'recorded log p {got!r} but log P(current error) '
+                        f'at that rate is {want!r}',
+                        dict(desc, rates_given=rates))
             for prev, rate, nxt, lp, calls in steps_rec:
                 ch = [c for c in calls if c[0] == 'choice']
                 if len(ch) != 3 or ch[2][1] != [0, 1] or ch[2][2] is None:
@@ -377,6 +414,16 @@ def plan(tier, seed):
                       'dirs': [list(d) for d in dirs], 'seed': seed,
                       'nrand': 10 if tier == 'quick' else 80,
                       'cost': 800 if tier == 'quick' else 6000})
+    # hundreds of qubits with dense errors: the probability itself
+    # underflows a double, its logarithm must not
+    for cls, s in [('Toric2DCode', (16, 16)), ('Toric3DCode', (5, 5, 5)),
+                   ('RotatedPlanar2DCode', (21, 21))] + (
+            [('Toric2DCode', (24, 24)), ('XCubeCode', (6, 6, 6))]
+            if tier == 'thorough' else []):
+        tasks.append({'kind': 'large', 'cls': cls, 'size': list(s),
+                      'dirs': [list(d) for d in dirs[:3]], 'seed': seed,
+                      'nrand': 6 if tier == 'quick' else 30, 'dense': True,
+                      'cost': 1500 if tier == 'quick' else 8000})
     tasks.append({'kind': 'metropolis', 'seed': seed,
                   'steps': 40 if tier == 'quick' else 400,
                   'cost': 3000 if tier == 'quick' else 30000})
